@@ -53,9 +53,10 @@
     - pools are built with validate_config = false in the tie (build_unchecked, no connection is opened by
       from_config); the first client of a pool object then validates it (client.rs:738-755 -> pool.rs:628-670):
       one connection per server is opened and goes back idle.  The model has ONE server address per pool.
-    - bb8 hands out the most recently returned idle connection (Lifo, pool.rs:493-496 with the
-      default server_round_robin = false) and opens a new one when none is idle; pool_size is
-      not modelled (C04): the tie keeps the number of concurrent transactions below it.
+    - bb8 hands out the idle connection that was returned first (Fifo, pool.rs:493-496 with
+      server_round_robin = true, the value serde fills in when the key is absent: config.rs:453)
+      and opens a new one when none is idle; pool_size is not modelled (C04): the tie keeps the
+      number of concurrent transactions below it.
     - [hashf] is a parameter; theorems that need "different definitions have different hashes"
       say so ([hash_inj]): 64-bit SipHash collisions are not excluded by the code. *)
 From Coq Require Import Arith Bool List.
@@ -191,7 +192,7 @@ Record world := {
   objs : objs_t;
   next_pool : pool_id;
   clients : list (cid * client);
-  servers : list server;       (* open server connections; idle ones of a pool in LIFO order *)
+  servers : list server;       (* open server connections; idle ones of a pool in hand-out order *)
   next_srv : server_id;
   validated : list pool_id     (* pool objects whose [validated] flag is set (shared by all clones) *)
 }.
@@ -237,10 +238,11 @@ Fixpoint take_idle (p : pool_id) (c : cid) (l : list server) : option (server_id
 Definition held_by (c : cid) (x : server) : bool :=
   match sholder x with Some c' => c' =? c | None => false end.
 
-(** the servers held by [c] go back to the FRONT of the idle list (bb8 Lifo) *)
+(** the servers held by [c] go back to the BACK of the idle queue, [take_idle] takes from the front
+    (bb8 Fifo: internals.rs:106 push_back, :241 pop_front) *)
 Definition release (c : cid) (l : list server) : list server :=
-  map (fun x => {| sid := sid x; spool := spool x; sholder := None |}) (filter (held_by c) l)
-  ++ filter (fun x => negb (held_by c x)) l.
+  filter (fun x => negb (held_by c x)) l
+  ++ map (fun x => {| sid := sid x; spool := spool x; sholder := None |}) (filter (held_by c) l).
 
 Inductive op :=
 | OReload (fo : file_outcome)
@@ -442,3 +444,6 @@ Fixpoint trace2 (hashf : pdef -> hash) (w : world) (l : list op) :=
 Definition bo_of (fails panics : list key) : db -> user -> build_outcome :=
   fun d u => if existsb (key_eqb (d, u)) panics then BuildPanics
              else if existsb (key_eqb (d, u)) fails then BuildFails else Built.
+
+(** the hash used when the model is executed (tie, witnesses): definitions are numbered injectively *)
+Definition idh (x : pdef) : hash := x.
